@@ -779,27 +779,28 @@ def shape_andor(rng):
         co = [i >= k for i in range(n)]
     nstructs = rng.choice([1, 1, 2])
     clauses, facts = [], []
-    template = rng.random() < 0.35
-    if template and n >= 5:
-        # the "sibling reads a popped cycle member" skeleton on five of the traits, the rest random
-        idx = list(range(n))
-        same = [i for i in idx if co[i] == co[-1]]
+    frozen = set()
+    if rng.random() < 0.45 and n >= 5:
+        # skeleton "a sibling reads a cycle member after it was popped, and the cycle head
+        # changes its provisional value": H -> G1 -> H, G2 -> G1, consumer R; X decides H late
+        same = [i for i in range(n) if co[i] == co[-1]]
+        low = [i for i in range(n) if not co[i] or co[-1] == co[i]]
         if len(same) >= 4:
             h, g1, g2, r = rng.sample(same, 4)
-            others = [i for i in idx if i not in (h, g1, g2, r) and (co[-1] or not co[i])]
-            x = rng.choice(others) if others else None
-            if co[h]:
-                clauses.append((names[h], [names[g1], names[g2]] + ([names[x]] if x is not None else [])))
-            else:
-                clauses += [(names[h], [names[g1]]), (names[h], [names[g2]])] + ([(names[h], [names[x]])] if x is not None else [])
-            clauses += [(names[g1], [names[h]]), (names[g2], [names[g1]])]
-            if co[h]:
-                clauses += [(names[r], [names[h]]), (names[r], [names[g2]])]
-            else:
-                clauses.append((names[r], [names[h], names[g2]]))
-    have = {c[0] for c in clauses}
+            rest = [i for i in low if i not in (h, g1, g2, r)]
+            if rest:
+                x = rng.choice(rest)
+                H, G1, G2, R, X = names[h], names[g1], names[g2], names[r], names[x]
+                if co[h]:
+                    # coinductive: H looks fine while the cycle is assumed, X (no clause) refutes it
+                    clauses += [(H, [G1, G2, X]), (G1, [H]), (G2, [G1]), (R, [H]), (R, [G2])]
+                else:
+                    # inductive: H fails on the cycle, X (a fact) proves it later
+                    clauses += [(H, [G1]), (H, [G2]), (H, [X]), (G1, [H]), (G2, [G1]), (R, [H, G2])]
+                    facts.append((X, "A"))
+                frozen = {H, G1, G2, R, X}
     for i in range(n):
-        if names[i] in have and rng.random() < 0.6:
+        if names[i] in frozen:
             continue
         allowed = [names[j] for j in range(n) if co[i] or not co[j]]
         r = rng.random()
@@ -813,6 +814,8 @@ def shape_andor(rng):
                     clauses.append((names[i], []))
             else:
                 clauses.append((names[i], [rng.choice(allowed) for _ in range(nb)]))
+    for c in clauses:
+        rng.shuffle(c[1])
     rng.shuffle(clauses)
     pr = _andor_prog(list(zip(names, co)), clauses, facts, "andor-" + mode, nstructs)
     gs = pr.fixed_goals
@@ -821,6 +824,7 @@ def shape_andor(rng):
         gs.append(("and", (a, b)))
     if rng.random() < 0.5:
         gs.append(("not", rng.choice(gs[:n])))
+    pr = permute(pr, rng)          # the engines are sensitive to impl and where-clause order
     return pr
 
 
@@ -1164,8 +1168,18 @@ def corpus():
               Impl(0, ("C0", (S(2),)), [("C0", (S(1),)), ("C0", (S(3),))]), Impl(0, ("C0", (S(3),)), [("C0", (S(2),))])], "corpus-F7q")
     out.append((p, [("atom", ("C0", (S(0),))), ("atom", ("C0", (S(1),)))]))
     # provisional result read by a sibling (recursive solver, minimums.update_from seed)
+    # (the recursive solver works through where-clauses back to front and impls in declaration
+    #  order; the witnesses need one particular order, so all four reversals are kept)
     for q in andor_demo_programs():
-        out.append((q, list(q.fixed_goals)))
+        for rev_wc in (False, True):
+            for rev_items in (False, True):
+                v = q.copy()
+                if rev_wc:
+                    for im in v.impls:
+                        im.wcs.reverse()
+                if rev_items:
+                    v.order = [o for o in v.order if o[0] != "impl"] + [o for o in reversed(v.order) if o[0] == "impl"]
+                out.append((v, list(v.fixed_goals)))
     return out
 
 
